@@ -134,11 +134,49 @@ impl Prop for C07 {
         }
         let reads = gen::gen_reads(rng, inbound.len(), &ends, &lc);
         let mut ops = Vec::new();
-        for _ in 0..rng.below(4) {
-            ops.push(AppOp::Read);
+        // write half: healthy / slow (short writes, Pending) / failing at reply boundaries
+        let mut writes = vec![];
+        let mut n_err = 0usize;
+        match rng.below(8) {
+            0 | 1 => {},
+            2 => {
+                // the transport refuses some replies outright (whole-frame accepts otherwise, so
+                // every error lands at the start of a reply)
+                let k = rng.usize(1, 40);
+                for _ in 0..k {
+                    if rng.chance(1, 4) {
+                        writes.push(crate::scenario::WriteEv::Err(*rng.pick(&[
+                            crate::scenario::ErrKind::WouldBlock,
+                            crate::scenario::ErrKind::TimedOut,
+                            crate::scenario::ErrKind::BrokenPipe,
+                            crate::scenario::ErrKind::Interrupted,
+                        ])));
+                        n_err += 1;
+                    } else {
+                        writes.push(crate::scenario::WriteEv::Accept(usize::MAX >> 1));
+                    }
+                }
+            },
+            _ => {
+                let wc = gen::WriteCfg::swarm(rng);
+                let k = rng.usize(4, 200);
+                writes = gen::gen_writes(rng, k, &wc);
+            },
+        }
+        // the select!-loop pattern: reads dropped while pending (tokio only)
+        let cancels = imp == Imp::Tokio && rng.chance(1, 4);
+        let pre = if cancels { rng.usize(1, 30) } else { rng.below(4) as usize };
+        for _ in 0..pre {
+            if cancels && rng.chance(2, 3) {
+                ops.push(AppOp::ReadCancel {
+                    polls: rng.below(5) as u32,
+                });
+            } else {
+                ops.push(AppOp::Read);
+            }
         }
         ops.push(AppOp::Drain {
-            max: (frames.len() + 3) as u32,
+            max: (frames.len() + n_err + 3) as u32,
         });
         StreamScenario {
             imp,
@@ -147,7 +185,7 @@ impl Prop for C07 {
             explicit_gate: true,
             inbound,
             reads,
-            writes: vec![],
+            writes,
             ops,
         }
     }
@@ -167,13 +205,16 @@ impl Prop for C07 {
     fn shrink(&self, sc: &StreamScenario) -> Vec<StreamScenario> {
         shrink_stream(sc)
     }
+    fn preludes(&self, sc: &StreamScenario) -> Vec<StreamScenario> {
+        crate::streamprop::stream_preludes(sc)
+    }
     fn rule(&self) -> String {
         "Each case is one read-only session whose inbound history mixes keep-alives (TINY_NONE, reqi 0) with TINY frames of every sub-type and request id and with every other packet kind, under seeded segmentation and Pending polls. Oracle over the captured outgoing bytes: only whole TINY_NONE/0 frames are ever written; a reply is never started before the link has delivered a keep-alive that justifies it; when the j-th keep-alive is handed to the caller at least j complete replies are on the wire; at the end replies == keep-alives. Non-trivial = a frame was split or a Pending fired; distinct by trace signature. The sweep covers every (sub-type, reqi) pair.".into()
     }
     fn assumptions(&self) -> Vec<String> {
         vec![
             "a frame is a keep-alive iff its reference decode is Tiny{subt: None, reqi: 0}".into(),
-            "the write half is healthy in this workload (write-side faults belong to C06/C19)".into(),
+            "write half: healthy, slow (short writes / Pending) or refusing whole replies with an error; an error never lands inside a reply in this workload, and a keep-alive whose reply was refused may be dropped or delivered later but never delivered without its reply".into(),
         ]
     }
     fn components(&self) -> Value {
@@ -187,6 +228,12 @@ impl Prop for C07 {
             "read_pending",
             "blocking_runs",
             "tokio_runs",
+            "short_write",
+            "write_pending",
+            "write_err",
+            "reply_write_error_surfaced",
+            "read_cancelled",
+            "cancel_in_pong_write_after_partial",
         ]
     }
 }
